@@ -249,7 +249,20 @@ func c19Slices(n int) map[string]interface{} {
 	for i := 0; i < n; i++ {
 		arr.Index(i).SetInt(int64(i))
 	}
-	return map[string]interface{}{"[]string": strs, "[]int": ints, "[]struct": structs, "[]*struct": ptrs, "*[]string": &strs, "*[]int": &ints, "array": arr.Interface()}
+	// slices with spare capacity whose backing array holds other data beyond len
+	capInts := make([]int, n, n+5)
+	capStrs := append(make([]string, 0, n+3), strs...)
+	for i := 0; i < n; i++ {
+		capInts[i] = i
+	}
+	full := capInts[:cap(capInts)]
+	for i := n; i < len(full); i++ {
+		full[i] = 9000 + i
+	}
+	resliced := append([]int{}, ints...)
+	resliced = append(resliced, 777, 888)[:n]
+	return map[string]interface{}{"[]string": strs, "[]int": ints, "[]struct": structs, "[]*struct": ptrs, "*[]string": &strs, "*[]int": &ints, "array": arr.Interface(),
+		"[]int+cap": capInts, "[]string+cap": capStrs, "*[]int+cap": &resliced}
 }
 
 func c19IDs(group interface{}) []int {
